@@ -457,20 +457,23 @@ def A5(ctx: Ctx) -> RuleResult:
         params = v.params()
         for o in ctx.ev.run(v, {params[0]: self_e, params[2]: Sym('values')}):
             gs = norm_guards(o.guards)
-            exp = (o.env or {}).get('expected')
+            exp = None
+            for e in o.effects:
+                if isinstance(e, Loop):
+                    for rg, exc in e.raises:
+                        for t, pol in norm_guards(rg):
+                            if isinstance(t, Call) and isinstance(t.func, Ext) and t.func.name == 'isinstance' and not pol and len(t.args) == 2:
+                                raises = True
+                                exp = t.args[1]
+            for t, pol in gs:
+                if isinstance(t, Call) and isinstance(t.func, Ext) and t.func.name == 'isinstance' and not pol and o.kind == 'raise':
+                    raises = True
             for t, pol in gs:
                 if pol and isinstance(t, Op) and t.op in ('is', '==') and Attr(self_e, 'type') in t.args:
                     other = [a for a in t.args if a != Attr(self_e, 'type')][0]
                     fs = flagset(ctx, other)
                     if fs and len(fs) == 1 and exp is not None:
                         kinds[next(iter(fs))] = exp
-            for e in o.effects:
-                if isinstance(e, Loop) and e.raises:
-                    for rg, exc in e.raises:
-                        if any(isinstance(t, Call) and isinstance(t.func, Ext) and t.func.name == 'isinstance' and not pol for t, pol in norm_guards(rg)):
-                            raises = True
-            if o.kind == 'raise' and any(isinstance(t, Call) and isinstance(t.func, Ext) and t.func.name == 'isinstance' and not pol for t, pol in gs):
-                raises = True
     want = {'BOOL': 'bool', 'NUMBER': 'int', 'STRING': 'str'}
     for k, w in want.items():
         got = kinds.get(k)
